@@ -218,7 +218,8 @@ def generate(rng: random.Random, batch: dict) -> dict:
             claimed = False
         if dom == "bp" and (last or rng.random() < 0.4):
             actions.append({"a": "evaluate",
-                            "listing_seed": rng.getrandbits(30)})
+                            "listing_seed": rng.getrandbits(30),
+                            "other_bounds": rng.random() < 0.5})
             if last and rng.random() < 0.5:
                 actions.append({"a": "evaluate",
                                 "listing_seed": rng.getrandbits(30)})
@@ -259,7 +260,8 @@ def directed(tier: str) -> list:
          "actions": [{"a": "run", "n_runs": [1, 3], "warmup": True,
                       "pre_warmup": True},
                      {"a": "peer_completes"},
-                     {"a": "evaluate", "listing_seed": 7},
+                     {"a": "evaluate", "listing_seed": 7,
+                      "other_bounds": True},
                      {"a": "evaluate", "listing_seed": 8}]}]})
     for dom, setups, insts, budget in (
             ("tsp", ["tsp:ea", "tsp:fea"], ["tsp:burma14", "tsp:gr17"], 100),
@@ -450,6 +452,24 @@ def boot_main(argv: list) -> int:
             except Exception as exc:  # noqa: BLE001
                 _emit(ev, {"e": "from_logs", "raised":
                            f"{type(exc).__name__}: {exc}"[:300]})
+            if action.get("other_bounds"):
+                # the same directory evaluated again in this process with
+                # another collection of bound calculators (one of our own):
+                # every record must carry exactly these bounds
+                def area_bound(i):
+                    a = sum(int(r[0]) * int(r[1]) * int(r[2]) for r in i)
+                    return -(-a // (int(i.bin_width) * int(i.bin_height)))
+                got2 = []
+                try:
+                    from_logs(base, got2.append,
+                              bin_bounds={"bins.lowerBound.area": area_bound})
+                    _emit(ev, {"e": "from_logs_other", "bounds": [
+                        [str(r.end_result.instance),
+                         {k: int(v) for k, v in r.bin_bounds.items()}]
+                        for r in got2]})
+                except Exception as exc:  # noqa: BLE001
+                    _emit(ev, {"e": "from_logs_other", "raised":
+                               f"{type(exc).__name__}: {exc}"[:300]})
             files = []
             for root, _dirs, names in os.walk(base):
                 for nm in names:
@@ -1278,6 +1298,31 @@ def _run_scenario(doc, dom, budget, root, base, res, seeds_fn) -> None:
                         f"{len(want_set)} completed logs on disk "
                         f"({len(bad_at_eval)} incomplete files present); "
                         f"missing {missing[:4]}")
+                    return
+        if r["e"] == "from_logs_other":
+            core.bump(res["probes"], "evaluate_with_other_bounds")
+            if "raised" in r and not bad_at_eval:
+                core.violation(res, "from_logs-raised",
+                               f"from_logs with other bound calculators over "
+                               f"complete logs raised {r['raised']}")
+                return
+            for iname, bb in r.get("bounds", []):
+                want_b = None
+                for iid in doc["instances"]:
+                    dd = _inst_data(iid)
+                    if dd.get("name") == iname:
+                        area = sum(it[0] * it[1] * it[2]
+                                   for it in dd["items"])
+                        want_b = {"bins.lowerBound.area": -(-area // (
+                            dd["W"] * dd["H"]))}
+                if want_b is not None and bb != want_b:
+                    core.violation(
+                        res, "parsed-bin-bound-untrue",
+                        f"from_logs with the bound calculators "
+                        f"{sorted(want_b)} delivered {bb} for {iname} "
+                        f"(expected {want_b}); the directory had been "
+                        f"evaluated with the default calculators before in "
+                        f"the same process")
                     return
         if r["e"] != "parsed":
             continue
